@@ -208,7 +208,15 @@ func srtEscape(s, following string, all bool) string {
 	var b strings.Builder
 	rs := []rune(s)
 	for i, c := range rs {
-		rest := string(rs[i:]) + following
+		// (a window of what follows is enough for the look-ahead; the whole rest would make long lines quadratic)
+		end := i + 12
+		if end > len(rs) {
+			end = len(rs)
+		}
+		rest := string(rs[i:end])
+		if end == len(rs) {
+			rest += trunc(following, 12)
+		}
 		switch {
 		case c == '&':
 			if all || strings.HasPrefix(rest, "&amp;") || strings.HasPrefix(rest, "&lt;") || strings.HasPrefix(rest, "&nbsp;") {
@@ -398,6 +406,11 @@ func srtProject(s *astisub.Subtitles) []srtCue {
 					run.B, run.I, run.U = sa.SRTBold, sa.SRTItalics, sa.SRTUnderline
 					if sa.SRTColor != nil {
 						run.Color = *sa.SRTColor
+					}
+					// the colour is also handed on under the name the other formats read it by: it is the run's own
+					// colour there too, and no colour when the run has none
+					if sa.TTMLColor != nil && (sa.SRTColor == nil || *sa.TTMLColor != *sa.SRTColor) {
+						run.Color += " (handed on to the other formats as " + *sa.TTMLColor + ")"
 					}
 				}
 				runs = append(runs, run)
